@@ -6,6 +6,7 @@ CONSTANTS
     CapAtBlobSize = TRUE
     BgAllFiles = TRUE
     WaitHonoursTimeout = TRUE
+    ThresholdOnEffective = TRUE
     AllowReg = TRUE
 INIT GenInit
 NEXT GenNext
